@@ -831,8 +831,24 @@ func (x *Exec) typeTag(t types.Type) Term {
 			x.tagTypes = map[int]types.Type{}
 		}
 		x.tagTypes[n] = t
+		// interface-to-interface assertions executed before this dynamic type became known: the same
+		// fact as in execTypeAssert, for the new type
+		for _, a := range x.ifaceAsserts {
+			has := Eq(IfcTag(a.v), IntLit(int64(n)))
+			if types.Implements(t, a.it) {
+				x.assume(a.reach, Implies(And(has, Not(Eq(a.v, nilIfc))), a.ok))
+			} else {
+				x.assume(a.reach, Implies(has, Not(a.ok)))
+			}
+		}
 	}
 	return IntLit(int64(n))
+}
+
+// ifaceAssert records an executed interface-to-interface type assertion (value, result, interface).
+type ifaceAssert struct {
+	v, ok, reach Term
+	it           *types.Interface
 }
 
 func (x *Exec) execMakeInterface(f *Frame, i *ssa.MakeInterface) {
@@ -871,6 +887,7 @@ func (x *Exec) execTypeAssert(f *Frame, i *ssa.TypeAssert) {
 					x.assume(x.cur.reach, Implies(has, Not(ok)))
 				}
 			}
+			x.ifaceAsserts = append(x.ifaceAsserts, ifaceAssert{v: v, ok: ok, reach: x.cur.reach, it: it})
 		}
 		if i.CommaOk {
 			f.regs[i] = Val{Tup: []Val{{T: Ite(ok, v, nilIfc)}, {T: ok}}}
